@@ -125,13 +125,50 @@ def _kclass(k, n):
 
 
 # ---------------------------------------------------------------------------------------------------
+# the caller keeps the objects he passes: a function that writes into its arguments changes the tree (or the graph)
+# every later call is given.  Each call gets working copies; when a call has changed them, the answer that is judged
+# (against the ORIGINAL tree) is the one of a second call on the same objects — the history `f(d); f(d)` of a caller
+# who keeps `d` — and the case says so.
+# ---------------------------------------------------------------------------------------------------
+HISTORY = {'mutated': False, 'count': 0}
+
+
+def _unchanged(x, y):
+    if sparse.issparse(x):
+        return (x.shape == y.shape and np.array_equal(x.indptr, y.indptr) and np.array_equal(x.indices, y.indices)
+                and np.array_equal(x.data, y.data, equal_nan=True))
+    return x.shape == y.shape and x.dtype == y.dtype and np.array_equal(x, y, equal_nan=True)
+
+
+def _kept(call, *args):
+    """call(*working copies of args); a second time on the same objects when the first call modified one of them"""
+    work = [x.copy() for x in args]
+    HISTORY['mutated'] = False
+    out = call(*work)
+    if not all(_unchanged(w, x) for w, x in zip(work, args)):
+        HISTORY['mutated'] = True
+        HISTORY['count'] += 1
+        out = call(*work)
+    return out
+
+
+def _note_history(c):
+    if HISTORY['mutated']:
+        c.sig = dict(c.sig, history='same object passed twice')
+        c.desc = dict(c.desc, history='the first call modified its argument; judged: the answer of a second call on the same object')
+    HISTORY['mutated'] = False
+    return c
+
+
+# ---------------------------------------------------------------------------------------------------
 # cases
 # ---------------------------------------------------------------------------------------------------
 def case_straight(d, n, k, thr, srt, ret, mono=None):
     from sknetwork.hierarchy import cut_straight
     dt = dd.enc_dendro(d)
-    impl = _call(lambda: _enc_cut(cut_straight(d.copy(), n_clusters=k, threshold=thr, sort_clusters=srt,
-                                               return_dendrogram=ret), ret))
+    impl = _call(lambda: _kept(lambda x: _enc_cut(cut_straight(x, n_clusters=k, threshold=thr, sort_clusters=srt,
+                                                               return_dendrogram=ret), ret), d))
+    hist = HISTORY['mutated']
     run = 'c08.cut_straight %s %s %s %s %s' % (dt, _opt(k), _opt_ht(thr), enc_bool(srt), enc_bool(ret))
     spec = None
     # the default n_clusters = 2 is not admissible on a single leaf
@@ -154,7 +191,8 @@ def case_straight(d, n, k, thr, srt, ret, mono=None):
             'threshold_form': _thr_form(thr), 'sort_clusters': srt, 'return_dendrogram': ret}
     c = Case(('straight', dt, k, _thr_key(thr), srt, ret), sig, run, impl, spec, nontriv, desc, canon='labels')
     c.tol = admissible
-    return c
+    HISTORY['mutated'] = hist
+    return _note_history(c)
 
 
 def case_balanced(d, n, m, srt, ret, omitted=False):
@@ -163,9 +201,11 @@ def case_balanced(d, n, m, srt, ret, omitted=False):
     from sknetwork.hierarchy import cut_balanced
     dt = dd.enc_dendro(d)
     if omitted:
-        impl = _call(lambda: _enc_cut(cut_balanced(d.copy()), False))
+        impl = _call(lambda: _kept(lambda x: _enc_cut(cut_balanced(x), False), d))
     else:
-        impl = _call(lambda: _enc_cut(cut_balanced(d.copy(), max_cluster_size=m, sort_clusters=srt, return_dendrogram=ret), ret))
+        impl = _call(lambda: _kept(lambda x: _enc_cut(cut_balanced(x, max_cluster_size=m, sort_clusters=srt,
+                                                                   return_dendrogram=ret), ret), d))
+    hist = HISTORY['mutated']
     run = 'c08.cut_balanced %s %d %s %s' % (dt, m, enc_bool(srt), enc_bool(ret))
     spec = None
     nontriv = False
@@ -181,15 +221,16 @@ def case_balanced(d, n, m, srt, ret, omitted=False):
         desc['omitted'] = True
     c = Case(('balanced', dt, m, srt, ret, omitted), sig, run, impl, spec, nontriv, desc, canon='labels')
     c.tol = (2 <= m <= n)
-    return c
+    HISTORY['mutated'] = hist
+    return _note_history(c)
 
 
 def case_aggregate(d, n, k, cnt, omitted=False):
     """`omitted`: call with the dendrogram only (defaults n_clusters=2, return_counts=False)"""
     from sknetwork.hierarchy import aggregate_dendrogram
 
-    def f():
-        out = aggregate_dendrogram(d.copy()) if omitted else aggregate_dendrogram(d.copy(), n_clusters=k, return_counts=cnt)
+    def f(x):
+        out = aggregate_dendrogram(x) if omitted else aggregate_dendrogram(x, n_clusters=k, return_counts=cnt)
         if cnt:
             a, c = out
             ctok = enc_list(c)
@@ -200,7 +241,8 @@ def case_aggregate(d, n, k, cnt, omitted=False):
             return 'malformed-dendrogram'
         return 'ok %s %s' % (at, ctok)
     dt = dd.enc_dendro(d)
-    impl = _call(f)
+    impl = _call(lambda: _kept(f, d))
+    hist = HISTORY['mutated']
     run = 'c08.aggregate %s %d %s' % (dt, k, enc_bool(cnt))
     spec = None
     if impl.startswith('ok '):
@@ -213,7 +255,8 @@ def case_aggregate(d, n, k, cnt, omitted=False):
         desc['omitted'] = True
     c = Case(('aggregate', dt, k, cnt, omitted), sig, run, impl, spec, impl.startswith('ok') and 1 < k < n, desc)
     c.tol = (1 <= k <= n)
-    return c
+    HISTORY['mutated'] = hist
+    return _note_history(c)
 
 
 def _mat_tok(a):
@@ -233,9 +276,10 @@ def cases_metrics(a, d, n, gname=''):
         deg = enc_bool(weights == 'degree')
         for norm in (False, True):
             def f():
-                v = float(dasgupta_cost(a.copy(), d.copy(), weights=weights, normalized=norm))
+                v = float(_kept(lambda x, y: dasgupta_cost(x, y, weights=weights, normalized=norm), a, d))
                 return 'ok ' + repr(v)
             impl = _call(f)
+            hist = HISTORY['mutated']
             run = 'c08.dasgupta %d %s %s %s %s' % (n, mt, dt, deg, enc_bool(norm))
             spec = None
             if impl.startswith('ok '):
@@ -245,12 +289,14 @@ def cases_metrics(a, d, n, gname=''):
                      {'f': 'dasgupta_cost', 'graph': gdesc, 'dendrogram': _ddesc(d), 'weights': weights, 'normalized': norm},
                      canon='rat')
             c.tol = admissible
-            out.append(c)
+            HISTORY['mutated'] = hist
+            out.append(_note_history(c))
 
             def g():
-                v = float(tree_sampling_divergence(a.copy(), d.copy(), weights=weights, normalized=norm))
+                v = float(_kept(lambda x, y: tree_sampling_divergence(x, y, weights=weights, normalized=norm), a, d))
                 return 'ok ' + repr(v)
             impl = _call(g)
+            hist = HISTORY['mutated']
             canon = 'bits'
             if norm and impl.startswith('ok '):
                 # the quotient score / mutual_information is ill-conditioned when the mutual information is small: both
@@ -278,12 +324,14 @@ def cases_metrics(a, d, n, gname=''):
                      {'f': 'tree_sampling_divergence', 'graph': gdesc, 'dendrogram': _ddesc(d), 'weights': weights, 'normalized': norm},
                      canon=canon)
             c.tol = admissible
-            out.append(c)
+            HISTORY['mutated'] = hist
+            out.append(_note_history(c))
 
         def h():
-            v = float(dasgupta_score(a.copy(), d.copy(), weights=weights))
+            v = float(_kept(lambda x, y: dasgupta_score(x, y, weights=weights), a, d))
             return 'ok ' + repr(v)
         impl = _call(h)
+        hist = HISTORY['mutated']
         spec = None
         if impl.startswith('ok '):
             v = float(impl[3:])
@@ -292,7 +340,8 @@ def cases_metrics(a, d, n, gname=''):
                  'c08.dasgupta_score %d %s %s %s' % (n, mt, dt, deg), impl, spec, nontriv,
                  {'f': 'dasgupta_score', 'graph': gdesc, 'dendrogram': _ddesc(d), 'weights': weights}, canon='rat')
         c.tol = admissible
-        out.append(c)
+        HISTORY['mutated'] = hist
+        out.append(_note_history(c))
     return out
 
 
@@ -682,7 +731,11 @@ def build_cases(ctx):
 
 
 def run(ctx):
-    evaluate(ctx, build_cases(ctx))
+    HISTORY['count'] = 0
+    cases = build_cases(ctx)
+    # calls that changed the dendrogram / the graph they were given (each is judged on a second call on the same objects)
+    ctx.count('calls-that-modified-an-argument', HISTORY['count'])
+    evaluate(ctx, cases)
 
 
 # ---------------------------------------------------------------------------------------------------
